@@ -318,3 +318,105 @@ def short_sequences(tier, seed):
     res.samples.append(dict(d=d, flattened_subpaths=len(want)))
     res.distinct_nontrivial = len(seen)
     return res
+
+
+# ------------------------------------------------------------------------------------------------ the lxml model of the tree runs, against lxml itself
+@component(("C02", "C03", "C05", "C06", "C15", "C19"), "tree_model.vs_lxml", "bounded")
+def tree_model_vs_lxml(tier, seed):
+    """The symbolic tree runs (tree_runs.py, trace_runs.py) execute the real code over fake_tree.FakeElement.  This component
+    checks that assumed contract of lxml differentially: random sequences of the tree operations picosvg uses are applied to
+    a FakeElement tree and to an lxml tree; shape, parents, attribute order and the answers of the queries must agree."""
+    from lxml import etree
+
+    from contracts.fake_tree import SVGNS, FakeElement
+
+    res = ComponentResult()
+    n = 300 if tier == "quick" else 6000
+    res.bound = f"{n} random operation sequences of length 12 on trees of 6-10 elements"
+    res.rule = ("append / insert / remove / extend (moving children) / addnext / replace / attrib set, del, pop, update, clear / deepcopy on both models; afterwards the serialised shape "
+                "(tag, attribute items in order, children) and index / getparent / iterdescendants / len / iteration agree; distinct = distinct final trees")
+    rnd = random.Random(seed)
+    seen = set()
+
+    def dump(e):
+        return (e.tag, tuple(e.attrib.items()), tuple(dump(c) for c in e))
+
+    for it in range(n):
+        k = rnd.randint(6, 10)
+        fk = [FakeElement(SVGNS + rnd.choice("g path rect defs".split()), {"id": f"e{i}"}) for i in range(k)]
+        lx = [etree.Element(f.tag, dict(f.attrib)) for f in fk]
+        for i in range(1, k):
+            p = rnd.randrange(i)
+            fk[p].append(fk[i])
+            lx[p].append(lx[i])
+        log = []
+        try:
+            for _ in range(12):
+                op = rnd.choice(["append", "insert", "remove", "extend", "addnext", "replace", "set", "del", "pop", "update", "clear", "copy"])
+                a, b = rnd.randrange(k), rnd.randrange(k)
+                log.append((op, a, b))
+
+                def is_ancestor(x, y):  # x ancestor-or-self of y (in the fake tree; the two trees agree so far)
+                    while y is not None:
+                        if y is x:
+                            return True
+                        y = y.getparent()
+                    return False
+
+                if op in ("append", "insert", "extend", "addnext", "replace") and is_ancestor(fk[b], fk[a]):
+                    continue  # would create a cycle: lxml refuses, picosvg never does it
+                if op == "append":
+                    fk[a].append(fk[b]); lx[a].append(lx[b])
+                elif op == "insert":
+                    i = rnd.randint(0, len(lx[a]))
+                    fk[a].insert(i, fk[b]); lx[a].insert(i, lx[b])
+                elif op == "remove":
+                    if fk[a].getparent() is not None:
+                        fk[a].getparent().remove(fk[a]); lx[a].getparent().remove(lx[a])
+                elif op == "extend":
+                    if not is_ancestor(fk[a], fk[b]):
+                        fk[b].extend(fk[a]); lx[b].extend(lx[a])
+                elif op == "addnext":
+                    if fk[a].getparent() is not None and a != b and not is_ancestor(fk[b], fk[a].getparent()):
+                        fk[a].addnext(fk[b]); lx[a].addnext(lx[b])
+                elif op == "replace":
+                    if fk[a].getparent() is not None and a != b and not is_ancestor(fk[b], fk[a].getparent()):
+                        pf, pl = fk[a].getparent(), lx[a].getparent()
+                        pf.replace(fk[a], fk[b]); pl.replace(lx[a], lx[b])
+                elif op == "set":
+                    key = rnd.choice(["fill", "d", "id", "opacity"])
+                    fk[a].attrib[key] = str(b); lx[a].attrib[key] = str(b)
+                elif op == "del":
+                    key = rnd.choice(list(lx[a].attrib) or ["none"])
+                    if key in lx[a].attrib:
+                        del fk[a].attrib[key]; del lx[a].attrib[key]
+                elif op == "pop":
+                    key = rnd.choice(["fill", "d", "id", "zzz"])
+                    if fk[a].attrib.pop(key, None) != lx[a].attrib.pop(key, None):
+                        raise AssertionError("pop result differs")
+                elif op == "update":
+                    fk[a].attrib.update({"fill": "red", "x": "1"}); lx[a].attrib.update({"fill": "red", "x": "1"})
+                elif op == "clear":
+                    fk[a].attrib.clear(); lx[a].attrib.clear()
+                elif op == "copy":
+                    import copy
+
+                    cf, cl = fk[a].__pyvc_copy__(), copy.deepcopy(lx[a])
+                    if dump(cf) != dump(cl) or cf.getparent() is not None or cl.getparent() is not None:
+                        raise AssertionError("deep copy differs")
+            res.evaluations += 1
+            for i in range(k):
+                pf, pl = fk[i].getparent(), lx[i].getparent()
+                same = dump(fk[i]) == dump(lx[i]) and len(fk[i]) == len(lx[i]) and (pf is None) == (pl is None)
+                same = same and [e.attrib.get("id") for e in fk[i].iterdescendants()] == [e.attrib.get("id") for e in lx[i].iterdescendants()]
+                if same and pf is not None:
+                    same = pf.index(fk[i]) == pl.index(lx[i]) and pf.attrib.get("id") == pl.attrib.get("id")
+                if not same:
+                    raise AssertionError(f"element {i} differs")
+            seen.add(tuple(dump(f) for f in fk if f.getparent() is None))
+        except Exception as e:  # noqa
+            res.findings.append(Finding(key="tree_model.vs_lxml:model-differs", text=f"FakeElement and lxml disagree after {log}: {type(e).__name__}: {e}", replay=dict(log=log, seed=seed, iteration=it), confirmed=True))
+            break
+    res.samples.append(dict(last_sequence=str(log)))
+    res.distinct_nontrivial = len(seen)
+    return res
